@@ -2,6 +2,9 @@ package rt
 
 import (
 	"fmt"
+
+	"github.com/open-telemetry/otel-arrow/pkg/otel/arrow_record"
+
 	"runtime"
 	"strings"
 	"sync"
@@ -16,12 +19,13 @@ import (
 type c16stream struct {
 	h      *History
 	o      OptSet
-	hashes []string // per batch: canon hash of the decoded output (or "E:<err>")
+	copts  []arrow_record.Option // consumer options (may be one value shared by every stream of the round)
+	hashes []string              // per batch: canon hash of the decoded output (or "E:<err>")
 }
 
 // runStream encodes+decodes every batch of st on a fresh producer/consumer pair.
 func (st *c16stream) run(active *int64, overlap *int64, yield bool) (out []string, pi *PanicInfo) {
-	s := NewStream(st.o)
+	s := NewStream(st.o, st.copts...)
 	defer s.Close()
 	for _, b := range st.h.Batches {
 		n := atomic.AddInt64(active, 1)
@@ -64,7 +68,7 @@ func TestC16(t *testing.T) {
 	carve, carveNames := carveFor("C16")
 	r.Meta(vc.Meta{
 		Level:           "exploration",
-		Rule:            "case = one round: N distinct producer/consumer pairs (different signals, options, histories; all inputs and expectations built before any goroutine starts) are first run ALONE, one after the other, recording the canonical hash of every decoded batch, then run CONCURRENTLY, one goroutine each, started on a barrier with Gosched between calls. Oracle: (a) zero race-detector reports with a repository frame (reports are read from the GORACE log files, classified by stack, de-duplicated); (b) every stream's per-batch hash sequence under concurrency equals its sequential one. Non-trivial = round in which calls were observed executing while >=2 other streams were inside the library. Distinct = round fingerprint (stream scripts/options).",
+		Rule:            "case = one round: N distinct producer/consumer pairs (different signals, options, histories; in every other round all consumers are created from one option list built once; all inputs and expectations built before any goroutine starts) are first run ALONE, one after the other, recording the canonical hash of every decoded batch, then run CONCURRENTLY, one goroutine each, started on a barrier with Gosched between calls. Oracle: (a) zero race-detector reports with a repository frame (reports are read from the GORACE log files, classified by stack, de-duplicated); (b) every stream's per-batch hash sequence under concurrency equals its sequential one. Non-trivial = round in which calls were observed executing while >=2 other streams were inside the library. Distinct = round fingerprint (stream scripts/options).",
 		Assumptions:     []string{"the race detector only reports races on executed, actually overlapping accesses; absence of reports is not race freedom", "child processes run with GOMAXPROCS 16 or 4"},
 		RaceIsViolation: true,
 		Gates: map[string]map[string]int{
@@ -97,6 +101,17 @@ func TestC16(t *testing.T) {
 			}
 			streams[i] = &c16stream{h: h, o: o}
 			fp = append(fp, h.Script+"/"+o.String())
+		}
+		// every other round: ONE consumer option list, built once, configures every consumer of the round (an
+		// application that builds its options once and creates a consumer per connection). The memory limit in
+		// it is far above what any of these small streams needs (64 MiB; they need well under 4 MiB), so it can
+		// only matter if consumers built from the same option value share state.
+		if c.Idx%2 == 0 {
+			shared := []arrow_record.Option{arrow_record.WithMemoryLimit(64 << 20)}
+			for _, st := range streams {
+				st.copts = shared
+			}
+			c.Count("rounds_with_one_option_value_shared_by_all_consumers", 1)
 		}
 		var active, overlap, dummy int64
 		for _, st := range streams {
